@@ -179,7 +179,9 @@ func resRows(r *dbdrv.Result) []dbdrv.Row {
 
 // --- part 2: cluster partition failures --------------------------------------
 
-var c13Modes = []string{"no-handler", "error-before-rows", "error-after-k-rows", "blocks-past-timeout", "retriable-then-success"}
+// "first-handler-fails": the first handler a faulty partition offers fails, the ones behind it work - for a query
+// with an IN-subquery the subquery phase meets the failing one and the main phase a working one
+var c13Modes = []string{"no-handler", "error-before-rows", "error-after-k-rows", "blocks-past-timeout", "retriable-then-success", "first-handler-fails"}
 
 var errInjected = errors.New("injected partition failure")
 
@@ -191,6 +193,8 @@ func c13ClusterQueries() []string {
 		"SELECT a FROM t13 GROUP BY x, CROSSTAB(y)",            // non-pushdown (crosstab)
 		"SELECT * FROM t13 ORDER BY a DESC",                    // pushdown + order
 		"SELECT a FROM t13 GROUP BY y HAVING a > 1 ORDER BY a", // non-pushdown + having
+		// the IN-subquery runs on the cluster first, then the main query: two rounds of partition handlers
+		"SELECT a, ca FROM t13 WHERE x IN (SELECT x FROM t13 WHERE y = 'a') GROUP BY x",
 	}
 }
 
@@ -332,10 +336,12 @@ func c13EachHandler(cl *cluster.Cluster, subset int, mode string, k int, perPart
 				h = real
 			case mode == "no-handler":
 				continue
-			case mode == "error-before-rows":
+			case mode == "error-before-rows", mode == "first-handler-fails" && n == 0:
 				h = func(ctx context.Context, sqlString string, isSubQuery bool, subQueryResults [][]interface{}, unflat bool, onFields core.OnFields, onRow core.OnRow, onFlatRow core.OnFlatRow) (interface{}, error) {
 					return nil, errInjected
 				}
+			case mode == "first-handler-fails":
+				h = real
 			case mode == "error-after-k-rows":
 				h = func(ctx context.Context, sqlString string, isSubQuery bool, subQueryResults [][]interface{}, unflat bool, onFields core.OnFields, onRow core.OnRow, onFlatRow core.OnFlatRow) (interface{}, error) {
 					n := 0
@@ -389,11 +395,11 @@ func c13CheckCluster(c *fw.Ctx, cc *c13Cluster, cs c13Case) {
 	q := c13ClusterQueries()[cs.Query]
 	c.Eval(1)
 	if cs.RPC {
-		if !c13RegisterRPC(c, cc, cs.Subset, cs.Mode, cs.K, 2) {
+		if !c13RegisterRPC(c, cc, cs.Subset, cs.Mode, cs.K, 3) {
 			return
 		}
 	} else {
-		c13Register(cc.cl, cs.Subset, cs.Mode, cs.K, 2)
+		c13Register(cc.cl, cs.Subset, cs.Mode, cs.K, 3)
 	}
 	res, err := cc.cl.QueryLeaderOnce(context.Background(), 0, q, true)
 	r0 := cc.r0[q]
@@ -595,7 +601,7 @@ func init() {
 		ID:          "C13",
 		Level:       "fault_enumeration",
 		NoThreads:   true,
-		Rule:        "ground truth R0 = complete run. (1) operator deadlines: 30 query shapes (filter, group, crosstab, having, sort, offset, limit, IN- and FROM-subqueries, shift, stride, ranges) × deadline already expired or made to expire after row i for every i (the consumer itself sleeps past the deadline: deterministic); (2) cluster, P in {2,3}: every non-empty subset of partitions × {no handler, error before any row, error after k rows for every k, handler blocking past ClusterQueryTimeout, retriable error then success} × 6 pushdown and non-pushdown queries with harness-registered handlers, and for P=2 the error modes again with the handlers answering over real gRPC (rpc.Client.ProcessRemoteQuery against the leader's server); (3) memory cap: MaxMemoryRatio 1e-12 on a 1 001-key table × 11 query shapes (bare scan, group by key / all / coarser period, filter, having, sort, limit, range, FROM- and IN-subquery) against the uncapped result; (4) HTTP via web.Configure on httptest: {QueryTimeout 1ns, response-size estimate tripping after row K for K<=6, final JSON size check, planning error} × {/immediate, /async, /run} then a second request (cache) and the permalink; oracle per faulted run: error, or partition reported missing, or HTTP status != 200, or the complete result; retriable-then-success must be complete; evaluations = faulted runs, non-trivial = faults that actually removed data or were reported",
+		Rule:        "ground truth R0 = complete run. (1) operator deadlines: 30 query shapes (filter, group, crosstab, having, sort, offset, limit, IN- and FROM-subqueries, shift, stride, ranges) × deadline already expired or made to expire after row i for every i (the consumer itself sleeps past the deadline: deterministic); (2) cluster, P in {2,3}: every non-empty subset of partitions × {no handler, error before any row, error after k rows for every k, handler blocking past ClusterQueryTimeout, retriable error then success, first handler fails and the next ones work} × 7 pushdown and non-pushdown queries (one with an IN-subquery, which takes two rounds of handlers) with harness-registered handlers, and for P=2 the error modes again with the handlers answering over real gRPC (rpc.Client.ProcessRemoteQuery against the leader's server); (3) memory cap: MaxMemoryRatio 1e-12 on a 1 001-key table × 11 query shapes (bare scan, group by key / all / coarser period, filter, having, sort, limit, range, FROM- and IN-subquery) against the uncapped result; (4) HTTP via web.Configure on httptest: {QueryTimeout 1ns, response-size estimate tripping after row K for K<=6, final JSON size check, planning error} × {/immediate, /async, /run} then a second request (cache) and the permalink; oracle per faulted run: error, or partition reported missing, or HTTP status != 200, or the complete result; retriable-then-success must be complete; evaluations = faulted runs, non-trivial = faults that actually removed data or were reported",
 		Assumptions: []string{"deadlines are exercised by outlasting them, never by racing them", "/run and /async wait 5 s in the web coalescer and are exercised for one query each"},
 		Shards:      func(tier string) int { return 8 },
 		Budget:      func(tier string) time.Duration { return 25 * time.Minute },
